@@ -9,20 +9,39 @@ from vk import memvfs as mv
 ROOT = "/r"
 
 
-def config(**over):
+def config(over=None, **kw):
     cfg = hx.DictConfig(True)
     cfg.set("pygopherd", "root", ROOT)
-    for (s, k), v in over.items():
+    for (s, k), v in (over or {}).items():
         cfg.set(s, k, v)
     return cfg
 
 
-class PickleStub:
-    """Stands for the pickle module inside handlers.dir: dump remembers the object (and the
-    moment), load returns it or raises a chosen exception."""
+def snapshot_entries(entries):
+    """What pickle.dump would capture: a copy of each entry taken *now* (later mutation of the
+    live objects, e.g. by a protocol's renderer, must not leak into the stored payload)."""
+    import copy
 
-    class UnpicklingError(Exception):
-        pass
+    out = []
+    for e in entries:
+        c = copy.copy(e)
+        c.ea = dict(e.ea)
+        out.append(c)
+    return out
+
+
+class PickleStub:
+    """Stands for the pickle module inside handlers.dir: dump stores a snapshot of the object,
+    load returns a fresh copy of it or raises a chosen exception (the documented failure modes
+    of pickle.load on damaged input; validated against the real pickle in C11.3)."""
+
+    import pickle as _p
+
+    UnpicklingError = _p.UnpicklingError
+    PicklingError = _p.PicklingError
+    PickleError = _p.PickleError
+    HIGHEST_PROTOCOL = _p.HIGHEST_PROTOCOL
+    del _p
 
     def __init__(self):
         self.store = {}
@@ -31,10 +50,10 @@ class PickleStub:
         self.load_exc = None
         self.events = None
 
-    def dump(self, obj, fp, proto=None):
+    def dump(self, obj, fp, protocol=None, **kw):
         fp.write(b"PICKLE")
-        self.store[fp.selector] = obj
-        self.dumps.append((fp.selector, obj))
+        self.store[fp.selector] = snapshot_entries(obj)
+        self.dumps.append(fp.selector)
         if self.events is not None:
             self.events.append("dump")
 
@@ -42,7 +61,7 @@ class PickleStub:
         self.loads += 1
         if self.load_exc is not None:
             raise self.load_exc
-        return self.store[fp.selector]
+        return snapshot_entries(self.store[fp.selector])
 
 
 class Clock:
